@@ -15,10 +15,18 @@
      * shift law (exact arithmetic): adding c to every reward of a non-empty list shifts its mean by exactly c
        (EpsilonGreedy exploit value; UCB1 adds a bonus that does not depend on the rewards; Softmax subtracts the
        maximal mean, so the shift cancels).
-    ..._partial: LinGreedy's scale law and Radius/LSH row-order invariance are checked by the transformed-twin
+     * row order, LINEAR policies (exact arithmetic, scale=False; RowOrder.v): X'X and X'y do not depend on the order of the rows, so
+       fit on the same observations in another order leaves A, X'y, A^-1 and beta of every arm unchanged;
+     * row order, RADIUS (NbrRowOrder.v): what a query selects is a FILTER of the stored history (decision, reward, context triples whose
+       context is within the radius), so two policies whose histories are permutations of each other select, for every query,
+       permutations of the same observations (any number structure), the neighbourhood is empty for both or neither, and (exact
+       arithmetic) the learning policy receives the same reward sum and count for every arm;
+     * row order, LSHNearest (LshWhole.v): likewise a query selects the filter of the stored history by "collides with the query in some table",
+       so with the same planes permuted histories give permuted selections;
+    ..._partial: LinGreedy's scale law and KNearest row-order invariance are checked by the transformed-twin
     relation on the implementation. *)
 From Coq Require Import List ZArith Bool Arith QArith Qcanon Permutation.
-From MW Require Import Num Assoc AssocFacts Rng Par CF CFInv CFClean CFForget CFSpec Matrix Lin Warm WarmInv Nbr NbrFacts NbrIndep LshFacts Clu Tree CellFacts Mab FacadeCF FacadeArms MoreFacts NumLaws CFAlg Sim Extra QcInst OrderFacts ExpIrrel LinInv FacadeLin LpInv NbrInv CluTreeInv FacadeAll ToyFacts C09All C10All LinForget LinSim MatrixFacts GaussJordan LinSpec NbrIndepGen CluIndep C17Lin WarmIdem C14More LshScale TreeLeaf Rename.
+From MW Require Import Num Assoc AssocFacts Rng Par CF CFInv CFClean CFForget CFSpec Matrix Lin Warm WarmInv Nbr NbrFacts NbrIndep LshFacts Clu Tree CellFacts Mab FacadeCF FacadeArms MoreFacts NumLaws CFAlg Sim Extra QcInst OrderFacts ExpIrrel LinInv FacadeLin LpInv NbrInv CluTreeInv FacadeAll ToyFacts C09All C10All LinForget LinSim MatrixFacts GaussJordan LinSpec NbrIndepGen CluIndep C17Lin WarmIdem C14More LshScale TreeLeaf Rename PopSpec CopyFacts StatFacts CluBatch LinWarm RowOrder NbrRowOrder LshWhole.
 Import ListNotations.
 
 Theorem C20_renamed_arm_sees_the_same_reward_batches :
@@ -50,6 +58,110 @@ Theorem C20_mean_shift_law :
   add N (div N (nsum N l) (of_Z N (Z.of_nat (length l)))) c.
 Proof. exact @mean_shift. Qed.
 Print Assumptions C20_mean_shift_law.
+
+Theorem C20_lsh_row_order_selects_a_permutation :
+  forall (R A G : Type) (N : Num R) (s s' : (@nbr R A G)) (h h' : list (A * R * list R)) 
+    (ndim nt : nat) (row : list R) (idx idx' : list nat),
+  n_kind s = NLsh ndim nt ->
+  n_kind s' = NLsh ndim nt ->
+  n_planes s = n_planes s' ->
+  lsh_inv N s ->
+  lsh_inv N s' ->
+  n_ds s = ds_of h ->
+  n_rs s = rs_of h ->
+  n_cx s = cx_of h ->
+  n_ds s' = ds_of h' ->
+  n_rs s' = rs_of h' ->
+  n_cx s' = cx_of h' ->
+  Permutation h h' ->
+  neighborhood N s row [] = Some idx ->
+  neighborhood N s' row [] = Some idx' ->
+  exists sel sel' : list (A * R * list R),
+    selected N s idx = (ds_of sel, rs_of sel, cx_of sel) /\
+    selected N s' idx' = (ds_of sel', rs_of sel', cx_of sel') /\ Permutation sel sel'.
+Proof. exact @lsh_row_order_selects_a_permutation. Qed.
+Print Assumptions C20_lsh_row_order_selects_a_permutation.
+
+Theorem C20_radius_selects_a_filter_of_the_history :
+  forall (R A G : Type) (N : Num R) (s : (@nbr R A G)) (h : list (A * R * list R)) (r : R) 
+    (row : list R) (idx : list nat),
+  n_kind s = NRadius r ->
+  n_ds s = ds_of h ->
+  n_rs s = rs_of h ->
+  n_cx s = cx_of h ->
+  neighborhood N s row [] = Some idx ->
+  selected N s idx =
+  (ds_of (filter (within N s r row) h), rs_of (filter (within N s r row) h),
+   cx_of (filter (within N s r row) h)).
+Proof. exact @radius_selects_a_filter_of_the_history. Qed.
+Print Assumptions C20_radius_selects_a_filter_of_the_history.
+
+Theorem C20_radius_row_order_selects_a_permutation :
+  forall (R A G : Type) (N : Num R) (s s' : (@nbr R A G)) (h h' : list (A * R * list R)) 
+    (r : R) (row : list R) (idx idx' : list nat),
+  n_kind s = NRadius r ->
+  n_kind s' = NRadius r ->
+  n_metric s = n_metric s' ->
+  n_ds s = ds_of h ->
+  n_rs s = rs_of h ->
+  n_cx s = cx_of h ->
+  n_ds s' = ds_of h' ->
+  n_rs s' = rs_of h' ->
+  n_cx s' = cx_of h' ->
+  Permutation h h' ->
+  neighborhood N s row [] = Some idx ->
+  neighborhood N s' row [] = Some idx' ->
+  exists sel sel' : list (A * R * list R),
+    selected N s idx = (ds_of sel, rs_of sel, cx_of sel) /\
+    selected N s' idx' = (ds_of sel', rs_of sel', cx_of sel') /\
+    Permutation sel sel' /\ (idx = [] <-> idx' = []).
+Proof. exact @radius_row_order_selects_a_permutation. Qed.
+Print Assumptions C20_radius_row_order_selects_a_permutation.
+
+Theorem C20_radius_row_order_same_statistics :
+  forall (R A : Type) (N : Num R) (aeqb : A -> A -> bool),
+  NumLaws N ->
+  forall (sel sel' : list (A * R * list R)) (a : A),
+  Permutation sel sel' ->
+  nsum N (arm_rewards aeqb a (ds_of sel) (rs_of sel)) =
+  nsum N (arm_rewards aeqb a (ds_of sel') (rs_of sel')) /\
+  length (arm_rewards aeqb a (ds_of sel) (rs_of sel)) =
+  length (arm_rewards aeqb a (ds_of sel') (rs_of sel')).
+Proof. exact @radius_row_order_same_statistics. Qed.
+Print Assumptions C20_radius_row_order_same_statistics.
+
+Theorem C20_linear_fit_row_order_irrelevant :
+  forall (R A G : Type) (N : Num R),
+  NumLaws N ->
+  forall aeqb : A -> A -> bool,
+  (forall x y : A, aeqb x y = true <-> x = y) ->
+  forall (s0 : (@lin R A G)) (g g' : G) (rows rows' : list (A * R * list R)) (a : A),
+  lin_keys_ok s0 ->
+  In a (l_arms s0) ->
+  l_scale s0 = false ->
+  Permutation rows rows' ->
+  ncols (cx_of rows) = ncols (cx_of rows') ->
+  snd (lin_fit N aeqb s0 g (ds_of rows) (rs_of rows) (cx_of rows)) = true ->
+  snd (lin_fit N aeqb s0 g' (ds_of rows') (rs_of rows') (cx_of rows')) = true ->
+  let mk := model aeqb (fst (lin_fit N aeqb s0 g (ds_of rows) (rs_of rows) (cx_of rows))) a in
+  let mk' := model aeqb (fst (lin_fit N aeqb s0 g' (ds_of rows') (rs_of rows') (cx_of rows'))) a in
+  r_A mk = r_A mk' /\ r_Xty mk = r_Xty mk' /\ r_Ainv mk = r_Ainv mk' /\ r_beta mk = r_beta mk'.
+Proof. exact @lin_fit_row_order_irrelevant. Qed.
+Print Assumptions C20_linear_fit_row_order_irrelevant.
+
+Theorem C20_gram_matrix_invariant_under_row_permutation :
+  forall (R : Type) (N : Num R),
+  NumLaws N -> forall (d : nat) (x x' : (@mat R)), Permutation x x' -> xtx N d x = xtx N d x'.
+Proof. exact @xtx_permutation. Qed.
+Print Assumptions C20_gram_matrix_invariant_under_row_permutation.
+
+Theorem C20_moment_vector_invariant_under_row_permutation :
+  forall (R : Type) (N : Num R),
+  NumLaws N ->
+  forall (d : nat) (xy xy' : list (list R * R)),
+  Permutation xy xy' -> xty N d (map fst xy) (map snd xy) = xty N d (map fst xy') (map snd xy').
+Proof. exact @xty_permutation. Qed.
+Print Assumptions C20_moment_vector_invariant_under_row_permutation.
 
 
 Theorem C20_renamed_runs_are_related_every_policy_combination :
@@ -99,4 +211,21 @@ Example C20_renamed_run :
   snd (run QcNum Z.eqb ToyRng rx_m2 rx_ops2) = map (out_rename rn) (snd (run QcNum Z.eqb ToyRng rx_m1 rx_ops1)) /\
   nth 2 (snd (run QcNum Z.eqb ToyRng rx_m2 rx_ops2)) ODone = OArm (Some 103%Z).
 Proof. split; [apply (renamed_run_returns_renamed_results QcNum Z.eqb Z.eqb ToyRng rn rn_eqb); apply C20_related_inputs_exist | vm_compute; reflexivity]. Qed.
+
+(* non-vacuity of the linear row-order theorem: a LinUCB policy over the rationals, four observations and their reversal *)
+Definition q20 (z : Z) : Qc := Q2Qc (inject_Z z).
+Definition ex20_s0 : @lin Qc Z nat := lin_init QcNum RUcb (q20 1) (q20 0) (q20 2) false false [1; 2]%Z.
+Definition ex20_rows : list (Z * Qc * list Qc) :=
+  [(1%Z, q20 1, [q20 1; q20 0]); (2%Z, q20 0, [q20 0; q20 1]); (1%Z, q20 2, [q20 1; q20 1]); (1%Z, q20 5, [q20 2; q20 3])].
+Example C20_linear_row_order_hypotheses_satisfiable :
+  lin_keys_ok ex20_s0 /\ In 1%Z (l_arms ex20_s0) /\ l_scale ex20_s0 = false /\ Permutation ex20_rows (rev ex20_rows) /\
+  ex20_rows <> rev ex20_rows /\
+  ncols (cx_of ex20_rows) = ncols (cx_of (rev ex20_rows)) /\
+  snd (lin_fit QcNum Z.eqb ex20_s0 0%nat (ds_of ex20_rows) (rs_of ex20_rows) (cx_of ex20_rows)) = true /\
+  snd (lin_fit QcNum Z.eqb ex20_s0 0%nat (ds_of (rev ex20_rows)) (rs_of (rev ex20_rows)) (cx_of (rev ex20_rows))) = true.
+Proof.
+  split; [apply lin_keys_ok_init; repeat constructor; simpl; intuition discriminate|].
+  split; [left; reflexivity|]. split; [reflexivity|]. split; [apply Permutation_rev|].
+  split; [vm_compute; discriminate|]. split; [reflexivity|]. split; vm_compute; reflexivity.
+Qed.
 
